@@ -320,4 +320,45 @@ theorem DataInv.wPublish {s s' : State} (h : DataInv s) (i : Nat) (hs : step s (
       · exact ⟨(hhas.2.2 o ho e).1, Nat.le_refl _⟩
       · rw [he] at e' ⊢; exact hhas.2.2 o ho e'
 
+theorem DataInv.wFin3 {s s' : State} (h : DataInv s) (i : Nat) (hs : step s (.wFin3 i) = some s') : DataInv s' := by
+  simp only [step] at hs
+  split at hs
+  case isFalse => cases hs
+  rename_i hi
+  have hw := h.wk i hi
+  split at hs
+  case h_2 => cases hs
+  rename_i r hpc
+  have hpcI := hw.pcInv
+  rw [hpc] at hpcI
+  simp only at hpcI
+  obtain ⟨hown, hpos, hr, _, hst⟩ := hpcI
+  have hhas := hw.has hown
+  have hnf : i ∈ s.threadsFree → False := fun hf => by have := (h.free i hf).2.1; rw [hown] at this; cases this
+  have key : ∀ tf, (tf = s.threadsFree ∨ (tf = i :: s.threadsFree ∧ r = END)) →
+      DataInv { MtDec.setW s i { getW s i with hasOut := false, failed := r != END, pc := .top } with
+                queue := updOut s.queue (getW s i).blk (fun o =>
+                  { o with pos := (getW s i).outPos, decInPos := (getW s i).inPos, finished := true, finishRet := r }),
+                threadsFree := tf } := by
+    intro tf htf
+    refine h.workerWrites i hi { getW s i with hasOut := false, failed := r != END, pc := .top }
+      (fun o => { o with pos := (getW s i).outPos, decInPos := (getW s i).inPos, finished := true, finishRet := r })
+      hown (fun _ => rfl) (fun _ => rfl) (fun o _ _ _ => ⟨hpos, hr⟩) rfl ?_ hnf tf ?_
+    · exact ⟨hw.outLe, hw.fillLe, (fun hh => by cases hh), trivial, fun hrun => absurd hrun hst⟩
+    · rcases htf with e | ⟨e, hend⟩
+      · exact Or.inl e
+      · exact Or.inr ⟨e, rfl, trivial, by simp [hend], hst⟩
+  by_cases hend : r = END
+  · simp only [hend, bne_self_eq_false, Bool.false_and, Bool.false_eq_true, if_false, if_true] at hs
+    injection hs with hs; subst hs
+    have := key (i :: s.threadsFree) (Or.inr ⟨rfl, hend⟩)
+    subst hend
+    exact this.congr rfl rfl rfl rfl rfl rfl rfl rfl
+  · simp only [hend, if_false] at hs
+    injection hs with hs; subst hs
+    have := key s.threadsFree (Or.inl rfl)
+    split
+    · exact this.congr rfl rfl rfl rfl rfl rfl rfl rfl
+    · exact this.congr rfl rfl rfl rfl rfl rfl rfl rfl
+
 end XzVerif.MtDec
